@@ -963,7 +963,7 @@ def descs(draw, prof=None):
         host.update(begin=g.time(positive=True), dur=None, end=None, tc=None)
         for k in host["kids"]:
           if k["dur"] is None and k["end"] is None:
-            k["end"] = k["spare"]
+            k["dur"] = k["spare"]
   desc = dict(ns=ns, tt=tt, initials=initials, styles=styles, regions=regions, body=body)
   if prof["exotic"]:
     inject_exotic(g, desc, d(st.sampled_from(list(prof["exotic"]))))
